@@ -39,10 +39,24 @@
 class MemLeakScopedMutex
 {
 public:
-    MemLeakScopedMutex() : lock(MemoryLeakWarningPlugin::getGlobalDetector()->getMutex()) { }
+    MemLeakScopedMutex() : lock(MemoryLeakWarningPlugin::getGlobalDetector()->getMutex()) { lockIsHeld_ = true; }
+    ~MemLeakScopedMutex() { lockIsHeld_ = false; }
+
+    /* A misuse report leaves the thread-safe wrapper with a longjmp, so the destructor (and with it the unlock)
+     * is skipped. The reporter calls this before it fails the test, so that the detector's lock is not left held. */
+    static void unlockBeforeLeavingWithoutDestructor()
+    {
+        if (lockIsHeld_) {
+            lockIsHeld_ = false;
+            MemoryLeakWarningPlugin::getGlobalDetector()->getMutex()->Unlock();
+        }
+    }
 private:
+    static bool lockIsHeld_;
     ScopedMutexLock lock;
 };
+
+bool MemLeakScopedMutex::lockIsHeld_ = false;
 
 static void* threadsafe_mem_leak_malloc(size_t size, const char* file, size_t line)
 {
@@ -544,6 +558,9 @@ public:
 
     virtual void fail(char* fail_string) CPPUTEST_OVERRIDE
     {
+#if CPPUTEST_USE_MEM_LEAK_DETECTION
+        MemLeakScopedMutex::unlockBeforeLeavingWithoutDestructor();
+#endif
         UtestShell* currentTest = UtestShell::getCurrent();
         currentTest->failWith(FailFailure(currentTest, currentTest->getName().asCharString(), currentTest->getLineNumber(), fail_string), UtestShell::getCurrentTestTerminatorWithoutExceptions());
     } // LCOV_EXCL_LINE
